@@ -1,0 +1,12 @@
+//go:build verif
+
+package pool
+
+// LocalOwnerOfIPForVerif exposes the local pool's reverse index (ipToSub) for the verification
+// harness: the subscriber recorded as holder of ip, if any.
+func (p *PeerPool) LocalOwnerOfIPForVerif(ip string) (string, bool) {
+	p.localPool.mu.Lock()
+	defer p.localPool.mu.Unlock()
+	sub, ok := p.localPool.ipToSub[ip]
+	return sub, ok
+}
